@@ -62,7 +62,7 @@ func init() {
 	core.Register(&core.Prop{
 		ID:    "C17",
 		Level: "exploration",
-		Rule: "seeded charts packaged and signed by helm (action.Package --sign and Signatory.ClearSign) with OpenPGP RSA keys generated per worker; per chart: every byte position (stride-sampled to ~240 positions per part in the quick tier; thorough: all positions, all 8 bit flips at every 4th) of archive, clear-signed headers+body and signature armor × {bit flip, byte replacement, insertion, deletion, truncation}; structural mutants (re-signed messages with swapped / extra / missing file entries, other signer, other hash, duplicated / prefixed blocks, CRLF, trailing blanks, header changes, second signature block); keyrings {signer, signer+others, others, empty, missing, secret ring, same user id other key}; renamed / moved archives; through Signatory.Verify and downloader.VerifyChart (all mutants) and action.Verify, LocateChart(Verify), DownloadTo(VerifyAlways/VerifyLater) (sampled + all structural). " +
+		Rule: "seeded charts packaged and signed by helm (action.Package --sign and Signatory.ClearSign) with OpenPGP RSA keys generated per worker; per chart: every byte position (stride-sampled to ~240 positions per part in the quick tier; thorough: all positions, all 8 bit flips at every 4th) of archive, clear-signed headers+body and signature armor × {bit flip, byte replacement, insertion, deletion, truncation}; structural mutants (re-signed messages with swapped / extra / missing file entries, other signer, other hash, duplicated / prefixed blocks, CRLF, trailing blanks, header changes, second signature block); keyrings {signer, signer+others, others, empty, missing, secret ring, same user id other key}; keyring files rewritten in place between verifications (same path, same process: signer removed / added / file emptied / removed / replaced by rename); renamed / moved archives; through Signatory.Verify and downloader.VerifyChart (all mutants) and action.Verify, LocateChart(Verify), DownloadTo(VerifyAlways/VerifyLater) (sampled + all structural). " +
 			"distinct_nontrivial counts (part, mutation kind, expected outcome, entry point) tuples.",
 		Assumptions: []string{
 			"golang.org/x/crypto/openpgp (clearsign.Decode, CheckDetachedSignature, armor) is the trusted definition of 'valid signature by a key in the keyring'",
@@ -910,6 +910,57 @@ func (c *checker) structural(rng *rand.Rand, origBlk *clearsign.Block) {
 		res.Stat("keyring_variants_"+out, 1)
 		c.verifyPair("keyring", k.kind, archivePath, sig, ringFile, expect, k.hard != 0, true, w.sum, det)
 		c.download("keyring", k.kind, w.base, w.archive, w.prov, ringFile, expect, k.hard != 0, w.sum, det)
+	}
+
+	// ---- keyring file rewritten in place between verifications (same path, same process):
+	// trust must follow the current content of the file, never an earlier reading of it.
+	type kstep struct {
+		kind   string
+		write  func(path string)
+		expect bool
+	}
+	seqs := [][]kstep{
+		{ // trusted first, then revoked in several ways, then trusted again
+			{"seq1-step1-signer-present", func(p string) { writeRing(p, false, ks.A) }, true},
+			{"seq1-step2-signer-replaced-by-others", func(p string) { writeRing(p, false, ks.B, ks.C) }, false},
+			{"seq1-step3-signer-back-with-others", func(p string) { writeRing(p, false, ks.B, ks.A) }, true},
+			{"seq1-step4-file-emptied", func(p string) { os.WriteFile(p, nil, 0o600) }, false},
+			{"seq1-step5-signer-present-again", func(p string) { writeRing(p, false, ks.A, ks.C) }, true},
+			{"seq1-step6-same-userid-other-key", func(p string) { writeRing(p, false, ks.D) }, false},
+			{"seq1-step7-file-removed", func(p string) { os.Remove(p) }, false},
+		},
+		{ // untrusted first, then the signer is added
+			{"seq2-step1-others-only", func(p string) { writeRing(p, false, ks.C) }, false},
+			{"seq2-step2-signer-added", func(p string) { writeRing(p, false, ks.C, ks.A) }, true},
+			{"seq2-step3-signer-removed", func(p string) { writeRing(p, false, ks.C) }, false},
+		},
+		{ // the file does not exist first
+			{"seq3-step1-file-missing", func(p string) { os.Remove(p) }, false},
+			{"seq3-step2-signer-written", func(p string) { writeRing(p, false, ks.A) }, true},
+			{"seq3-step3-replaced-through-rename", func(p string) {
+				writeRing(p+".new", false, ks.B)
+				os.Rename(p+".new", p)
+			}, false},
+		},
+	}
+	for si, seq := range seqs {
+		ringFile := filepath.Join(w.dir, fmt.Sprintf("ring-mutable-%d.gpg", si+1))
+		var hist []string
+		for _, st := range seq {
+			st.write(ringFile)
+			hist = append(hist, st.kind)
+			h := strings.Join(hist, " -> ")
+			det := func() string {
+				return fmt.Sprintf("untouched %s and provenance (signed via %s); keyring file %s rewritten in place between verifications in one process: %s", w.base, w.via, filepath.Base(ringFile), h)
+			}
+			out := "reject"
+			if st.expect {
+				out = "accept"
+			}
+			res.Stat("keyring_in_place_changes_"+out, 1)
+			c.verifyPair("keyring-rewritten-in-place", st.kind, archivePath, nil, ringFile, st.expect, true, true, w.sum, det)
+			c.download("keyring-rewritten-in-place", st.kind, w.base, w.archive, w.prov, ringFile, st.expect, true, w.sum, det)
+		}
 	}
 
 	// ---- renamed / moved archives (bytes, provenance, keyring untouched)
